@@ -8,6 +8,7 @@ mod eng_client;
 mod eng_daemon;
 mod eng_gpu;
 mod eng_kern;
+mod eng_sender;
 mod eng_server;
 mod eng_session;
 mod eng_txn;
@@ -43,9 +44,18 @@ fn main() {
     }
     let out = arg(&args, "--out").expect("--out");
     // panics in code under test are data: keep the default hook quiet
-    if std::env::var("VH_DEBUG").is_err() {
-        std::panic::set_hook(Box::new(|_| {}));
-    }
+    let debug = std::env::var("VH_DEBUG").is_ok();
+    std::panic::set_hook(Box::new(move |info| {
+        let th = std::thread::current();
+        let loc = info.location().map(|l| format!("{}:{}", l.file().rsplit('/').next().unwrap_or(""), l.line())).unwrap_or_default();
+        let msg = info.payload().downcast_ref::<&str>().map(|s| s.to_string()).or_else(|| info.payload().downcast_ref::<String>().cloned()).unwrap_or_default();
+        let short: String = msg.chars().take(80).collect();
+        if debug {
+            eprintln!("PANIC thread={:?} at {loc}: {msg}", th.name());
+        }
+        let _ = short;
+        PANICS.lock().unwrap_or_else(|e| e.into_inner()).push(loc);
+    }));
     let mut trace = Trace::create(&out);
     match engine {
         "server" => {
@@ -80,6 +90,10 @@ fn main() {
         "client" => {
             let cases = read_cases(&arg(&args, "--cases").expect("--cases"));
             eng_client::run(&cases, &mut trace, seed);
+        }
+        "sender" => {
+            let cases = read_cases(&arg(&args, "--cases").expect("--cases"));
+            eng_sender::run(&cases, &mut trace, seed);
         }
         "session" => {
             let cases = read_cases(&arg(&args, "--cases").expect("--cases"));
